@@ -49,6 +49,19 @@ def run(pid, tier, seed):
         raise C.ToolFailure(f"the design model itself violates {mc.violation}:\n{mc.out[-3000:]}")
     C.check_coverage(mc, ["AppendH", "SetFormatter", "AppendNull", "Clear", "ClearAll"], cfg)
 
+    # beyond the bound of the exhaustive run: the conjunction of the C17 invariants (with the bookkeeping facts about
+    # identities and call numbers) is inductive - checked symbolically by Apalache for every handler list of up to 5
+    # entries and every table of up to 4 handler objects (spec/ApaSorted.tla); thorough tier only (about 4 minutes)
+    apa = {}
+    if tier == "thorough":
+        apa["base: Init => IndInv"] = C.run_apalache("ApaSorted", "Init", "IndInv", 0, 600)
+        apa["step: IndInv /\\ Next => IndInv'"] = C.run_apalache("ApaSorted", "IndInit", "IndInv", 1, 1500)
+        apa["witness: the step starts from full-length lists (must be Error)"] = C.run_apalache("ApaSorted", "IndInit", "NotFull", 0, 600)
+        if apa["base: Init => IndInv"] == "Error" or apa["step: IndInv /\\ Next => IndInv'"] == "Error":
+            raise C.ToolFailure(f"the design model is not inductive the way ApaSorted states it: {apa}")
+        if apa["witness: the step starts from full-length lists (must be Error)"] == "NoError":
+            raise C.ToolFailure("ApaSorted's start predicate admits no full-length list: the inductive step is vacuous")
+
     bdir = C.ensure_harness("asan", ["drv_sorted"])
     seqs, exh = gen_sequences(tier, seed)
     work = C.BUILD / "work" / pid
@@ -95,6 +108,7 @@ def run(pid, tier, seed):
         "tlc_depth": mc.depth, "tlc_action_coverage": C.cov_table(mc),
         "trace_events": sum(len(r) for r in runs) if runs else 0,
         "rejected_runs": len(failures),
+        "apalache_inductive_invariant": apa or "thorough tier only",
     }, time.time() - t0, violations, [
         "TLC and the Json/IOUtils community modules are trusted",
         "handler identity = order of the insertion call (the driver numbers handlers as it creates them)",
